@@ -18,7 +18,11 @@ func main() {
 	id := flag.String("id", "", "property id")
 	tier := flag.String("tier", "quick", "")
 	replay := flag.String("replay", "", "replay file")
+	mapRanges := flag.String("mapranges", "", "list functions iterating over maps in the given comma-separated packages")
 	flag.Parse()
+	if *mapRanges != "" {
+		os.Exit(listMapRanges(strings.Split(*mapRanges, ",")))
+	}
 	if *run != "" {
 		parts := strings.SplitN(*run, ":", 2)
 		ld, err := loadProgram([]string{parts[0]})
